@@ -275,8 +275,21 @@ def observed(rc, out, err):
     if rc < 0 or "Segmentation" in e:
         return ("crash", o, "exit %d %s" % (rc, e[-300:]))
     if rc == 1 and "Laufzeitfehler" in e:
-        return ("err", o, e[-400:])
+        return ("err", o, error_identity(e), e[-400:])
     return ("exit", o, "exit %d %s" % (rc, e[-300:]))
+
+
+def error_identity(stderr):
+    """which run-time error: the message line. The compiler's own error format strings are not NUL-terminated
+    (setupErrorStrings: constant.NewCharArrayFromString), so ddp_runtime_error prints whatever bytes follow them in the
+    executable (e.g. "...Falsche TypumwandlungC.utf8", or address bytes that change from run to run); that tail depends
+    on the memory layout and is not part of the property"""
+    msg = stderr[stderr.index("Laufzeitfehler"):]
+    line = msg.split("\n")[0]
+    for k in ("Falsche Typumwandlung", "Invalider UTF8 Wert im Text", "noch nicht implementiert"):
+        if k in line:
+            line = line[:line.index(k) + len(k)]
+    return line
 
 
 TRAILING = [0]     # comparisons in which two error messages differed only by bytes after the message
@@ -288,14 +301,8 @@ def same(a, b):
         return False
     if a[0] in ("crash", "sanitizer", "nondeterministic"):
         return True
-    if a[0] == "err" and a[1] == b[1] and a[2] != b[2]:
-        # which error = its message; the compiler's own error format strings are not NUL-terminated (setupErrorStrings:
-        # constant.NewCharArrayFromString), so ddp_runtime_error prints whatever bytes follow them in the executable
-        # (e.g. "...Falsche TypumwandlungC.utf8"); that tail depends on the layout and is not part of the property
-        x, y = a[2].rstrip("\n"), b[2].rstrip("\n")
-        if x.startswith(y) or y.startswith(x):
-            TRAILING[0] += 1
-            return True
+    if a[0] == "err" and a[1] == b[1] and a[2] == b[2] and a[3:] != b[3:]:
+        TRAILING[0] += 1       # same error, different bytes after the message
     return a[1] == b[1] and a[2] == b[2]
 
 
